@@ -1,16 +1,16 @@
 \* stated bound K = 5/4 (5 x the sharp constant 1/4 of the normalised membership rule)
 SPECIFICATION Spec
 CONSTANTS
-  QSet = {17, 18, 19, 20, 21, 22, 23, 24}
-  WSet = {4, 6, 8, 11, 12, 16}
+  QSet = {2, 3, 5, 6, 7}
+  WSet = {8, 11, 12, 16}
   H0 = 8
   KMax = 3
   KNum = 5
   KDen = 4
   Normalise = TRUE
-  Fold = FALSE
-  FoldWeight = 2
-  Export = TRUE
+  Fold = TRUE
+  FoldWeight = 1
+  Export = FALSE
 INVARIANT ErrBound
 PROPERTY BoundHalves
 CHECK_DEADLOCK FALSE
